@@ -243,6 +243,7 @@ type Ctx struct {
 	pc     map[int]*Formula
 	memDef map[string][]memDefn
 	inprg  map[string]bool
+	fver   map[string][]string
 	noInl  map[*ssa.Function]bool
 }
 
@@ -426,7 +427,9 @@ func (c *Ctx) term(v ssa.Value) *Term {
 	case *ssa.MakeClosure:
 		f, _ := x.Fn.(*ssa.Function)
 		return &Term{Kind: "closure", Name: funcID(f), Fn: f, ID: c.instrID(x)}
-	case *ssa.MakeSlice, *ssa.MakeMap, *ssa.MakeChan:
+	case *ssa.MakeSlice:
+		return &Term{Kind: "makeslice", Name: "make", Args: []*Term{c.Term(x.Len)}, ID: c.instrID(x)}
+	case *ssa.MakeMap, *ssa.MakeChan:
 		return &Term{Kind: "opaque", Name: "make", ID: c.instrID(x.(ssa.Instruction))}
 	case *ssa.Range:
 		return &Term{Kind: "opaque", Name: "range", Args: []*Term{c.Term(x.X)}, ID: c.instrID(x)}
@@ -533,7 +536,7 @@ func (c *Ctx) load(u *ssa.UnOp) *Term {
 		}
 		t := projectField(base, x.Field, f)
 		if t.Kind == "field" && c.unstable(f, base) {
-			t = &Term{Kind: "field", Name: t.Name, Obj: f, Args: t.Args, Typ: t.Typ, ID: c.instrID(u)}
+			t = &Term{Kind: "field", Name: t.Name, Obj: f, Args: t.Args, Typ: t.Typ, ID: c.fieldVersion(f, u)}
 		}
 		return t
 	case *ssa.IndexAddr:
@@ -569,6 +572,101 @@ func (c *Ctx) unstable(f *types.Var, base *Term) bool {
 		}
 	}
 	return false
+}
+
+// fieldVersion names the memory version of heap field f observed by load u: two loads of the
+// same path with the same version see the same value. Versions change at stores to f (any
+// base — no alias analysis), at calls of repo functions that may store f, and at control-flow
+// merges of different versions.
+func (c *Ctx) fieldVersion(f *types.Var, u ssa.Instruction) string {
+	key := fmt.Sprintf("%p", f)
+	in, ok := c.fver[key]
+	mutates := func(ins ssa.Instruction) bool {
+		switch x := ins.(type) {
+		case *ssa.Store:
+			if fieldOfAddr(x.Addr) == f {
+				return true
+			}
+			// whole-struct store through a pointer to the struct containing f
+			if pt, ok := x.Addr.Type().Underlying().(*types.Pointer); ok {
+				if st, ok := pt.Elem().Underlying().(*types.Struct); ok {
+					for i := 0; i < st.NumFields(); i++ {
+						if st.Field(i) == f {
+							if _, isAlloc := baseOfAddr(x.Addr).(*ssa.Alloc); !isAlloc {
+								return true
+							}
+						}
+					}
+				}
+			}
+		case ssa.CallInstruction:
+			for _, g := range c.p.calleesOf(x) {
+				if c.p.mayMutate(g, f) || len(c.p.wholeStore[g]) > 0 {
+					return true
+				}
+			}
+		}
+		return false
+	}
+	if !ok {
+		n := len(c.fn.Blocks)
+		last := make([]string, n)
+		for _, b := range c.fn.Blocks {
+			for _, ins := range b.Instrs {
+				if mutates(ins) {
+					last[b.Index] = "m" + c.instrID(ins)
+				}
+			}
+		}
+		in = make([]string, n)
+		in[0] = "entry"
+		for changed := true; changed; {
+			changed = false
+			for _, b := range c.fn.Blocks {
+				if b.Index == 0 || strings.HasPrefix(in[b.Index], "merge") {
+					continue
+				}
+				res := ""
+				for _, p := range b.Preds {
+					out := last[p.Index]
+					if out == "" {
+						out = in[p.Index]
+					}
+					if out == "" {
+						continue
+					}
+					if res == "" {
+						res = out
+					} else if res != out {
+						res = fmt.Sprintf("merge%d", b.Index)
+						break
+					}
+				}
+				if res != "" && in[b.Index] != res {
+					in[b.Index] = res
+					changed = true
+				}
+			}
+		}
+		if c.fver == nil {
+			c.fver = map[string][]string{}
+		}
+		c.fver[key] = in
+	}
+	b := u.Block()
+	ver := in[b.Index]
+	for _, ins := range b.Instrs {
+		if ins == u {
+			break
+		}
+		if mutates(ins) {
+			ver = "m" + c.instrID(ins)
+		}
+	}
+	if ver == "" {
+		ver = "unreached"
+	}
+	return c.site + "v:" + f.Name() + ":" + ver
 }
 
 // memAt resolves the value of (alloc, path) just before instruction (blk, idx) by a backward
